@@ -303,6 +303,85 @@ func watchdog(names func() string) {
 	}
 }
 
+// restart (C21): concurrent writers on the append-only-log store (histories of conflicting appends, puts and removals from several
+// goroutines: the writer loop sees several mutations waiting at once, rejected ones among them), then a clean Stop, reopen, and the
+// same reads again.  The content before the stop must equal the content after the reopen.
+func runRestart(root string, rounds, threads int) {
+	dir := filepath.Join(root, "aofrestart")
+	os.MkdirAll(dir, 0o755)
+	openStore := func() (*aof.DiskKV, error) {
+		a, err := aof.New(aof.Config{Logger: zap.NewNop(), HasnFn: chord.Hash, DataDir: dir, FlushInterval: time.Hour})
+		if err != nil {
+			return nil, err
+		}
+		go a.Start()
+		return a, nil
+	}
+	a, err := openStore()
+	if err != nil {
+		panic(err)
+	}
+	r := verifkit.Rand(21)
+	var keys [][]byte
+	read := func(kv chord.KVProvider) map[string]any {
+		out := map[string]any{}
+		for _, k := range keys {
+			v, _ := kv.Get(ctx, k)
+			ch, _ := kv.PrefixList(ctx, k)
+			l := []string{}
+			for _, c := range ch {
+				l = append(l, string(c))
+			}
+			sort.Strings(l)
+			out[string(k)] = map[string]any{"v": string(v), "kids": l}
+		}
+		return out
+	}
+	for rd := 0; rd < rounds; rd++ {
+		b := backend{"aof", a, a.Stop}
+		current.Store("aof")
+		for hN := 0; hN < 8; hN++ {
+			var scripts [][]call
+			for t := 0; t < threads; t++ {
+				var sc []call
+				for n := 0; n < 4; n++ {
+					k := 1 + r.Intn(2)
+					switch r.Intn(5) {
+					case 0, 1:
+						sc = append(sc, call{M: "append", K: k, C: kids[r.Intn(len(kids))]}) // the same child from several goroutines: all but one are rejected
+					case 2:
+						sc = append(sc, call{M: "put", K: k, V: vals[r.Intn(len(vals))]})
+					case 3:
+						sc = append(sc, call{M: "remove", K: k, C: kids[r.Intn(len(kids))]})
+					default:
+						sc = append(sc, call{M: "delete", K: k})
+					}
+				}
+				scripts = append(scripts, sc)
+			}
+			busy.Add(1)
+			h := newHistory(b, len(scripts), new(atomic.Uint64))
+			keys = append(keys, h.keys[0], h.keys[1])
+			barrierStart(len(scripts), func(t int) {
+				for n, c := range scripts[t-1] {
+					h.do(t, n, c)
+				}
+			})
+			busy.Add(-1)
+		}
+		pre := read(a)
+		a.Stop()
+		a2, err := openStore()
+		if err != nil {
+			verifkit.Emit(map[string]any{"restart": rd, "reopen_err": err.Error(), "keys": len(keys)})
+			return
+		}
+		a = a2
+		verifkit.Emit(map[string]any{"restart": rd, "pre": pre, "post": read(a), "keys": len(keys)})
+	}
+	a.Stop()
+}
+
 // one history on two fresh keys
 func run(b backend, scripts [][]call, kind string, extra map[string]any) {
 	current.Store(b.name)
@@ -519,6 +598,8 @@ func main() {
 	case "all": // all <histories> <threads> <opsPerThread> <round keys>
 		hist(atoi(0), atoi(1), atoi(2))
 		rounds(atoi(3), atoi(1))
+	case "restart": // restart <stop/reopen cycles> <goroutines>: append-only-log store only
+		runRestart(root, atoi(0), atoi(1))
 	case "sched": // sched <random cases> <max schedules per case>: memory backend only
 		runSched(atoi(0), atoi(1))
 	case "schedreplay":
